@@ -123,6 +123,12 @@ fn reference(bytes: &[u8]) -> Option<(usize, usize, u64)> {
 
 pub fn check(c: &Case) -> CheckResult {
     let (bytes, candidates) = build_bytes(c);
+    check_bytes(&bytes, candidates)
+}
+
+/// The oracle on raw bytes (also the entry point of the libFuzzer target `c31_footer`).
+pub fn check_bytes(bytes: &[u8], candidates: usize) -> CheckResult {
+    let bytes = bytes.to_vec();
     let got = find_last_valid_footer(&bytes);
     let want = reference(&bytes);
     match (&got, &want) {
